@@ -230,6 +230,34 @@ func run(args map[string]string) {
 	dist := map[string]int{}
 	r := common.NewRng(seed)
 	var jobs []job
+	if f := args["--replay-cases"]; f != "" {
+		data, err := os.ReadFile(f)
+		if err != nil {
+			panic(err)
+		}
+		ctx := cuecontext.New()
+		for n, line := range strings.Split(strings.TrimSpace(string(data)), "\n") {
+			switch {
+			case strings.HasPrefix(line, "E "):
+				parts := strings.Split(line, " | ")
+				out.Emit(line, decodeTOML(ctx, common.Unhex(parts[2])))
+			case strings.HasPrefix(line, "C "):
+				cs, im := cliCase(args["--cue"], args["--out"], n, parseCliSpec(line))
+				out.Emit(cs, im)
+			}
+		}
+		return
+	}
+	// corpus: the witnesses of the theorems
+	for _, text := range []string{"[[a.b]]\n[[a]]\n[[a]]\n", "[[a.b]]\n[[a]]\n[[c]]\n[[a]]\nx = 1\n", "[a]\n[a]\n", "a = 1\na = 2\n",
+		"[[a]]\n[[a]]\nk = 1\n", "a.b.c = 1\n", "[a]\nb.c = 1\n", "a = { b.c = 1 }\n", "[a]\n[[a]]\n", "[[a]]\n[a]\n"} {
+		es, leaves := corpusEvents(text)
+		tt := text
+		jobs = append(jobs, func(ctx *cue.Context) [][2]string {
+			c, im := eventCase(ctx, es, leaves, tt)
+			return [][2]string{{c, im}}
+		})
+	}
 	for i := 0; i < nev; i++ {
 		g := &gen{r: r, keys: keyPool}
 		if r.Chance(1, 2) {
@@ -251,6 +279,44 @@ func run(args map[string]string) {
 			return [][2]string{{c, im}}
 		})
 	}
+	ncli := common.Atoi(args["--ncli"], 0)
+	nwide := common.Atoi(args["--nwide"], 0)
+	cueBin := args["--cue"]
+	work := args["--out"]
+	for i := 0; i < ncli+nwide; i++ {
+		g := &dgen{r: r}
+		c := cliSpec{format: common.Pick(r, []string{"json", "yaml", "toml", "cue"}),
+			mode: common.Pick(r, []string{"stdout", "outflag", "outfile", "pkg"}), expr: r.Chance(1, 3)}
+		if i >= ncli {
+			// TOML with numbers it cannot hold: an error or a known silent change
+			c.format, c.wide = "toml", true
+			g.big, g.badf = true, true
+		} else if c.format != "toml" {
+			g.null = true
+			g.big = r.Chance(1, 2)
+			g.badf = r.Chance(1, 2)
+		}
+		if r.Chance(1, 6) && !c.wide {
+			c.fail = common.Pick(r, []string{"incomplete", "conflict", "missing"})
+			if c.fail == "missing" {
+				c.expr = true
+			}
+		}
+		c.t = g.tree(3, true)
+		dist["cli/fmt-"+c.format]++
+		dist["cli/mode-"+c.mode]++
+		if c.expr {
+			dist["cli/expr"]++
+		}
+		if c.fail != "" {
+			dist["cli/fail-"+c.fail]++
+		}
+		id := i
+		jobs = append(jobs, func(ctx *cue.Context) [][2]string {
+			cs, im := cliCase(cueBin, work, id, c)
+			return [][2]string{{cs, im}}
+		})
+	}
 	nw := runtime.NumCPU()
 	if nw > 12 {
 		nw = 12
@@ -264,4 +330,32 @@ func run(args map[string]string) {
 	for _, k := range ks {
 		fmt.Printf("dist %s %d\n", k, dist[k])
 	}
+}
+
+// corpusEvents: the event sequence of the corpus texts (simple grammar: headers
+// and `dotted.key = 1` / `a = { b.c = 1 }` lines with bare keys).
+func corpusEvents(text string) ([]event, []string) {
+	var es []event
+	var leaves []string
+	for _, line := range strings.Split(strings.TrimSpace(text), "\n") {
+		switch {
+		case strings.HasPrefix(line, "[["):
+			es = append(es, event{'A', strings.Split(strings.Trim(line, "[]"), "."), nil})
+		case strings.HasPrefix(line, "["):
+			es = append(es, event{'T', strings.Split(strings.Trim(line, "[]"), "."), nil})
+		default:
+			kv := strings.SplitN(line, " = ", 2)
+			leaves = append(leaves, "1")
+			lf := &val{kind: 'L', leaf: len(leaves) - 1}
+			if strings.HasPrefix(kv[1], "{") {
+				inner := strings.SplitN(strings.Trim(kv[1], "{} "), " = ", 2)
+				leaves[len(leaves)-1] = inner[1]
+				lf = &val{kind: 'I', keys: [][]string{strings.Split(inner[0], ".")}, vals: []*val{lf}}
+			} else {
+				leaves[len(leaves)-1] = kv[1]
+			}
+			es = append(es, event{'K', strings.Split(kv[0], "."), lf})
+		}
+	}
+	return es, leaves
 }
